@@ -30,7 +30,7 @@ from ..machine import TraceMachine, replay_trace_machine, run_trace_machine, tra
 
 LEVEL = "exploration"
 WORKERS = {"quick": 8, "thorough": 16}
-BUDGET_S = {"quick": 40, "thorough": 650}
+BUDGET_S = {"quick": 50, "thorough": 650}
 RULE = (
     "Hypothesis RuleBasedStateMachine (<= 15 steps; the executed trace is the case) over a scratch "
     "workspace of <= 5 live regular files plus two symlinks to regular files (target inside / outside "
@@ -40,7 +40,13 @@ RULE = (
     "delta >= 1 us forwards/backwards, or the pre-mutation mtime, or an earlier mtime of the path; "
     "re-stepped until the (inode, mtime, size) triple seen through fs.info was never held by that "
     "path before); a content mutation may be preceded by an honest hash_file run on that path and "
-    "followed at once by a lookup of it through one drawn route. Queries: State.get, State.get_many over batches of size "
+    "followed at once by a lookup of it through one drawn route. Every query route also draws the "
+    "SPELLING of the path it asks about (canonical, dir/./f, dir//f, dir/sub/../f, through a "
+    "symlinked directory, symlinked-dir/../f whose lexical and real resolution differ; a "
+    "trailing-slash workspace root for build(dir) - other root spellings make the pinned code derive "
+    "wrong tree/index KEYS, which is a listing matter, not judged here; spelled_history mixes single and batched routes and "
+    "spellings for one file); the reference reads the bytes through that very spelling. "
+    "Queries: State.get, State.get_many over batches of size "
     "{0,1,2,3..8,998,999,1000,1001,2500} (live files at drawn positions among padding files that "
     "are saved once per history: most valid, some unsaved / other algorithm / newer version / "
     "deleted), hash_file(state=), build() of a file or the directory on a store carrying the state, "
@@ -92,7 +98,7 @@ INITIAL = {"a": "p:A", "b": "p:crlf", "sub/c": "h:610d0a62"}
 NEVER = ["never-1", "sub/never-2", "never-3"]
 # always present: a regular file that only serves as a link target inside the workspace, and two
 # symlinks to regular files (initially: one target inside the workspace, one outside it)
-EXTRA = ["sub/t-in", "lnk-in", "sub/lnk-out"]
+EXTRA = ["sub/t-in", "lnk-in", "sub/lnk-out", "t-in"]   # "t-in": same name as sub/t-in, other bytes
 LINKS = ["lnk-in", "sub/lnk-out"]
 TARGETS = {"sub/t-in": "p:A", "@out/t-out": "p:B", "@out/t-out2": "h:41414142"}
 N_PAD = 2600
@@ -145,6 +151,11 @@ probe_s = st.sampled_from([None, None, None, "get", "get+info", "many", "many+in
                            "hash_file+info", "get_hashes", "get_hashes+walk", "build_file",
                            "build_dir", "build_entries", "index", "index+reopened",
                            "index+stripped"])
+# path spelling of a query: 0 canonical, 1 dir/./f, 2 dir//f, 3 dir/<subdir>/../f, 4 through a symlinked
+# directory, 5 symlinked-dir/../f where the lexical and the real resolution differ (files of sub/)
+sp_s = st.sampled_from([0, 0, 0, 1, 2, 3, 4, 5, 5])
+sps_s = st.lists(st.integers(0, 5), max_size=4)
+wsp_s = st.sampled_from([0, 0, 0, 1, 2, 3, 4])
 prov_s = st.sampled_from([None, None, "reopened", "reopened", "stripped"])
 drop_s = st.lists(st.sampled_from(["inode", "mtime", "size"]), max_size=3, unique=True)
 size_s = st.sampled_from([0, 1, 2, 2, 3, 5, 5, 8, 8, 8, 8, 8, 8, 8, 8, 998, 999, 1000, 1001, 2500])
@@ -282,6 +293,12 @@ class C13Machine(TraceMachine):
             with open(p, "xb") as f:
                 f.write(gen.content_bytes(c))
             self.clock(p, ["d", 0], T0_NS + (10 + i) * 1_000_000_000 + 500_000_000)
+        os.mkdir(self.p("sub/deep"))
+        os.symlink("sub", self.p("dsub"))                                   # directory symlinks
+        os.symlink(os.path.join("sub", "deep"), self.p("dlink"))            # dlink/.. is sub, not ws
+        with open(self.p("t-in"), "xb") as f:
+            f.write(b"twin of sub/t-in\n")
+        self.clock(self.p("t-in"), ["d", 0], T0_NS + 20 * 1_000_000_000 + 500_000_000)
         os.symlink(os.path.join("sub", "t-in"), self.p("lnk-in"))          # relative, inside
         os.symlink(self.target_path("@out/t-out"), self.p("sub/lnk-out"))  # absolute, outside
         # the index a caller kept from an earlier session (hashes of the initial files)
@@ -336,6 +353,54 @@ class C13Machine(TraceMachine):
         cur = ref.read(p) if os.path.isfile(p) else self.last_bytes.get(p, b"AAAA")
         self.labels.add("content:same-size-other-bytes")
         return bytes((b + 1) % 256 for b in cur)
+
+    def spell(self, p, k):
+        """A spelling of the canonical workspace path p that the OS resolves to the same file."""
+        k = k % 6
+        if not k or not p.startswith(self.ws + os.sep):
+            return p
+        d, f = os.path.split(p)
+        sub = os.path.join(self.ws, "sub")
+        if d not in (self.ws, sub):
+            return p
+        if k == 1:
+            q = d + "/./" + f
+        elif k == 2:
+            q = d + "//" + f
+        elif k == 3:
+            q = (os.path.join(sub, "deep") if d == sub else sub) + "/../" + f
+        elif k == 4:
+            q = os.path.join(self.ws, "dsub", f) if d == sub else os.path.join(self.ws, "dsub", "..", f)
+        else:  # lexically ws/f, really ws/sub/f
+            q = (os.path.join(self.ws, "dlink", "..", f) if d == sub
+                 else os.path.join(self.ws, "dsub", "..", f))
+        if os.path.exists(p) and not (os.path.exists(q) and os.path.samefile(q, p)):
+            raise HarnessError(f"spelling {q} does not resolve to {p}")
+        self.labels.add(f"spelling:{k}")
+        return q
+
+    def spell_all(self, paths, sps):
+        if not sps:
+            return list(paths)
+        out, i = [], 0
+        for q in paths:
+            if q.startswith(self.ws + os.sep):
+                out.append(self.spell(q, sps[i % len(sps)]))
+                i += 1
+            else:
+                out.append(q)
+        return out
+
+    def spell_ws(self, k, entries=False):
+        """Spelled workspace root for the directory routes. Only spellings whose KEYS the pinned code
+        derives correctly: build() strips trailing separators; with 'ws/.', 'ws/sub/..' (build) and
+        any non-normalised root (build_entries) the tree/index keys come out wrong ('', 'b', '.'
+        components: the walk yields normalised roots, the key is sliced by the length of the given
+        path) - a listing matter outside this property, reported separately, not generated."""
+        if entries or not k % 2:
+            return self.ws
+        self.labels.add("spelling:root:trailing-slash")
+        return self.ws + "/"
 
     def target_path(self, t):
         return os.path.join(self.dir, "out", t[5:]) if t.startswith("@out/") else self.p(t)
@@ -399,7 +464,8 @@ class C13Machine(TraceMachine):
         self.cnt["cache_hits"] += len(used)
         if used:
             self.labels.add("cache-hit")
-        after = [p for p in used if p in self.mutated]
+        real = {os.path.realpath(m) for m in self.mutated} | self.mutated
+        after = [p for p in used if p in real or os.path.realpath(p) in real]
         if after:
             self.cnt["hits_after_mutation"] += len(after)
             self.nt.add("hit-after-mutation")
@@ -503,6 +569,8 @@ class C13Machine(TraceMachine):
 
     def r_get_many(self, paths, infos, n_label=None):
         live = set(self.live_files())
+        live |= {q for q in paths if os.path.normpath(q) in live
+                 or os.path.realpath(q).startswith(os.path.realpath(self.ws) + os.sep)}
         if infos == "none":
             given = {}
         else:
@@ -571,28 +639,30 @@ class C13Machine(TraceMachine):
         self.check("build(file)", p, obj.hash_info, name)
         self.labels.add(f"q:build(file):{name}")
 
-    def r_build_dir(self, name, kind):
+    def r_build_dir(self, name, kind, wsp=0):
         from dvc_data.hashfile.build import build
 
+        root = self.spell_ws(wsp)
         odb = ops.make_odb(kind, os.path.join(self.dir, f"odb-{kind}-{name}"), state=self.state,
                            hash_name=name)
         self.cnt["queries"] += 1
-        _staging, _meta, obj = build(odb, self.ws, self.fs, name)
+        _staging, _meta, obj = build(odb, root, self.fs, name)
         self.take_hits(name)
         listed = set()
         for key, _m, hi in obj:
             listed.add(os.path.join(self.ws, *key))
-            self.check("build(dir)", os.path.join(self.ws, *key), hi, name)
+            self.check("build(dir)", os.path.join(root.rstrip("/"), *key), hi, name)
         if listed != set(self.live_files()):
             self.violate("listing:build(dir)", "staged tree does not list exactly the files "
                          f"on disk: {sorted(listed ^ set(self.live_files()))}")
         self.labels.add(f"q:build(dir):{name}")
 
-    def r_build_entries(self, name):
+    def r_build_entries(self, name, wsp=0):
         from dvc_data.index.build import build_entries
 
+        root = self.spell_ws(wsp, entries=True)
         self.cnt["queries"] += 1
-        entries = list(build_entries(self.ws, self.fs, compute_hash=True, state=self.state,
+        entries = list(build_entries(root, self.fs, compute_hash=True, state=self.state,
                                      hash_name=name))
         self.take_hits(name)
         seen = set()
@@ -601,7 +671,7 @@ class C13Machine(TraceMachine):
                 continue
             p = os.path.join(self.ws, *e.key)
             seen.add(p)
-            self.check("build_entries", p, e.hash_info, name)
+            self.check("build_entries", os.path.join(root.rstrip("/"), *e.key), e.hash_info, name)
         if seen != set(self.live_files()):
             self.violate("listing:build_entries", "entries do not cover exactly the files on disk")
         self.labels.add(f"q:build_entries:{name}")
@@ -813,16 +883,17 @@ class C13Machine(TraceMachine):
         self.labels.add("mut:chmod")
 
     # ---- query rules ---------------------------------------------------------------------------
-    @rule(slot=qslot_s, given=st.booleans())
+    @rule(slot=qslot_s, given=st.booleans(), sp=sp_s)
     @traced
-    def q_get(self, slot, given):
-        self.r_get(self.qpath(slot) if slot >= 20 else self.p(SLOTS[slot % len(SLOTS)]), given)
+    def q_get(self, slot, given, sp=0):
+        p = self.qpath(slot) if slot >= 20 else self.p(SLOTS[slot % len(SLOTS)])
+        self.r_get(self.spell(p, sp), given)
 
     @rule(n=size_s, pos=pos_s, offset=st.integers(0, N_PAD - 1),
-          infos=st.sampled_from(["none", "all", "all", "live"]))
+          infos=st.sampled_from(["none", "all", "all", "live"]), sps=sps_s)
     @traced
-    def q_get_many(self, n, pos, offset, infos):
-        self.r_get_many(self.batch(n, pos, offset), infos, n)
+    def q_get_many(self, n, pos, offset, infos, sps=()):
+        self.r_get_many(self.spell_all(self.batch(n, pos, offset), sps), infos, n)
 
     def size_labels(self, route, n, nhit):
         self.labels.add(f"q:{route}")
@@ -832,37 +903,76 @@ class C13Machine(TraceMachine):
         if n >= 998 and nhit >= 900:
             self.labels.add("big-batch-mostly-hits")
 
-    @rule(slot=qslot_s, algo=algo_s, given=st.booleans())
+    @rule(slot=qslot_s, algo=algo_s, given=st.booleans(), sp=sp_s)
     @traced
-    def q_hash_file(self, slot, algo, given):
+    def q_hash_file(self, slot, algo, given, sp=0):
         p = self.qpath(slot)
         if p is None:
             return
-        self.r_hash_file(p, ALGOS[algo], given)
+        self.r_hash_file(self.spell(p, sp), ALGOS[algo], given)
 
     @rule(what=st.sampled_from(["file", "dir", "dir"]), slot=qslot_s, algo=algo_s,
-          kind=st.sampled_from(ops.STORE_KINDS))
+          kind=st.sampled_from(ops.STORE_KINDS), sp=sp_s, wsp=wsp_s)
     @traced
-    def q_build(self, what, slot, algo, kind):
+    def q_build(self, what, slot, algo, kind, sp=0, wsp=0):
         p = self.qpath(slot)
         if p is None:
             return
         name = ALGOS[algo]
         if what == "file":
-            self.r_build_file(p, name, kind)
+            self.r_build_file(self.spell(p, sp), name, kind)
         else:
-            self.r_build_dir(name, kind)
+            self.r_build_dir(name, kind, wsp)
 
     @rule(n=size_s, pos=pos_s, offset=st.integers(0, N_PAD - 1), algo=st.sampled_from([0, 0, 0, 1, 2]),
-          walk=st.booleans())
+          walk=st.booleans(), sps=sps_s)
     @traced
-    def q_get_hashes(self, n, pos, offset, algo, walk=False):
-        self.r_get_hashes(self.batch(n, pos, offset), ALGOS[algo], n, walk=walk)
+    def q_get_hashes(self, n, pos, offset, algo, walk=False, sps=()):
+        self.r_get_hashes(self.spell_all(self.batch(n, pos, offset), sps), ALGOS[algo], n, walk=walk)
 
-    @rule(algo=algo_s)
+    @rule(algo=algo_s, wsp=wsp_s)
     @traced
-    def q_build_entries(self, algo):
-        self.r_build_entries(ALGOS[algo])
+    def q_build_entries(self, algo, wsp=0):
+        self.r_build_entries(ALGOS[algo], wsp)
+
+    @rule(slot=qslot_s, sp1=sp_s, sp2=sp_s, sp3=sp_s,
+          r1=st.sampled_from(["hash_file", "hash_file+info", "get_hashes", "build_file", "many"]),
+          r2=st.sampled_from(["hash_file", "get_hashes", "build_file", "get", "many+infos"]),
+          r3=st.sampled_from(["get", "get+info", "many", "many+infos", "hash_file", "get_hashes",
+                              "build_file"]),
+          content=content_s, clock=clock_s, algo=algo_s)
+    @traced
+    def spelled_history(self, slot, sp1, sp2, sp3, r1, r2, r3, content, clock, algo):
+        """One file, three lookups through drawn routes (single / batched) under drawn spellings of
+        its path, with an in-place rewrite after the first; then the canonical spelling and, for the
+        files of sub/, the lexical twin in the workspace root are looked up as well."""
+        p = self.qpath(slot)
+        if p is None:
+            return
+        name = ALGOS[algo]
+        self.route_on(self.spell(p, sp1), r1, name)
+        if not os.path.islink(p):
+            self.do_write_in_place(p, content, clock)
+        self.route_on(self.spell(p, sp2), r2, name)
+        self.route_on(self.spell(p, sp3), r3, name)
+        twin = os.path.join(self.ws, os.path.basename(p))
+        for q in [p] + ([twin] if twin != p and os.path.isfile(twin) else []):
+            self.r_get(q, False)
+            self.r_get_many([q, self.spell(q, 1)], "none")
+            self.r_hash_file(q, name, False)
+
+    def route_on(self, q, route, name):
+        """One lookup of the (spelled) path q through a single or a batched route."""
+        if route in ("get", "get+info"):
+            self.r_get(q, route.endswith("+info"))
+        elif route in ("many", "many+infos"):
+            self.r_get_many([q], "all" if route.endswith("+infos") else "none")
+        elif route in ("hash_file", "hash_file+info"):
+            self.r_hash_file(q, name, route.endswith("+info"))
+        elif route == "get_hashes":
+            self.r_get_hashes([q], name)
+        else:
+            self.r_build_file(q, name, "local")
 
     def check_index(self, route, index, name=None, all_files=False):
         n = 0
